@@ -216,6 +216,7 @@ def run(chk, replay=None):
         'non-trivial = the real operator returned a result (not an error) or the spec demands a refusal; distinct by (operator, setting, operand descriptors)')
     disagreements = []
     cex = [0]
+    new_keys = set()
     model_cache = {}
 
     def ask(line):
@@ -233,7 +234,15 @@ def run(chk, replay=None):
     def violation(key, inp, real, spec, what):
         """`key` is the coarse structural key (matched against known-findings.json and used to
         report each pattern once); the concrete failing input goes into the replay"""
-        chk.count('spec-violations-by-key', json.dumps(key, sort_keys=True))
+        ks = json.dumps(key, sort_keys=True)
+        chk.count('spec-violations-by-key', ks)
+        if common.match_finding(chk.findings, key) is None and ks not in new_keys:
+            if len(new_keys) >= 12:
+                # enough distinct replays for one run; the rest is only counted
+                cex[0] += 1
+                chk.coverage['violations_not_written_beyond_cap'] = chk.coverage.get('violations_not_written_beyond_cap', 0) + 1
+                return
+            new_keys.add(ks)
         if chk.counterexample(key, {'input': inp, 'lcapy': real, 'spec': spec}, what):
             cex[0] += 1      # not covered by a known finding
 
@@ -275,13 +284,19 @@ def run(chk, replay=None):
         chk.coverage['correspondence']['compared'] += 1
         if ustr(desc[2]) != mu:
             disagree('default-units', [d, q, kind], ustr(desc[2]), mu)
-        if ask('q.labelok %s %s' % (q, ustr(desc[2]))) != 'true':
-            violation({'kind': 'class-default', 'domain': d, 'quantity': q}, {'class': type(x).__name__},
-                      {'units': str(x.units)}, 'labelOk: (V, A) exponents of the units equal those of the quantity',
-                      'class default units of %s do not have the dimension of its quantity' % type(x).__name__)
+        if ask('q.freshok %s %s %s' % (wire_domain(d), q, ustr(desc[2]))) != 'true':
+            violation({'kind': 'class-default', 'domain': d, 'quantity': q}, {'op': 'construct', 'class': type(x).__name__, 'a': [d, q, kind]},
+                      {'units': str(x.units)}, 'freshOk: SI dimension of the units = expectedDim(domain, quantity) of Lcapy/Spec/Dim.lean',
+                      '%s(...) carries units %s' % (type(x).__name__, x.units))
 
     def is_noise(desc):
         return desc[0] in NOISE
+
+    replay_input = None
+    if replay:
+        rp = json.load(open(replay if os.path.isabs(replay) else os.path.join(common.VERIF, replay)))
+        replay_input = rp.get('input') or {}
+        chk.coverage['replay'] = {'file': replay, 'input': replay_input}
 
     def kinds_for(d, which):
         ks = [k for k in which if (d, 'voltage', k) in operands]
@@ -318,9 +333,10 @@ def run(chk, replay=None):
                         key = {'kind': 'dimension', 'family': 'noise-operators'}
                     elif op == '/' and xd[0] == 'time' and xd[1] in ('impedance', 'admittance') and xd[4]:
                         key = {'kind': 'dimension', 'family': 'division-by-unchanging-time-domain-immittance'}
+                    elif op == '/' and xd[0] == 'time' and xd[1] in ('impedance', 'admittance') and ad[0] == 'time' and ad[1] == 'undefined' and ad[5]:
+                        key = {'kind': 'dimension', 'family': 'reciprocal-of-time-domain-immittance'}
                     else:
-                        key = {'kind': 'dimension', 'family': 'other', 'op': op, 'a_quantity': ad[1], 'x_quantity': xd[1],
-                               'a_domain': ad[0], 'x_domain': xd[0]}
+                        key = {'kind': 'dimension', 'family': 'other', 'op': op, 'a_quantity': ad[1], 'x_quantity': xd[1]}
                     violation(key, inp, {'quantity': real[2], 'units': ustr(real[3]), 'domain': real[1]},
                               '%s: dim(units r) = dim(units a) %s dim(units x) and dimQ(quantity r) = dimQ a %s dimQ x' % (
                                   'mulOk' if op == '*' else 'divOk', '+' if op == '*' else '-', '+' if op == '*' else '-'),
@@ -328,12 +344,19 @@ def run(chk, replay=None):
 
     if quick:
         a_keys = [(d, q, 'var' if d in VARS else 'const') for d in domains for q in QORDER]
-        x_keys = list(a_keys) + [(d, q, 'const') for d in domains if d in VARS for q in ('impedance', 'admittance')]
+        x_keys = list(a_keys) + [(d, q, kd) for d in domains if d in VARS for q in ('impedance', 'admittance') for kd in ('const', 'par')]
+        a_keys = a_keys + [('time', 'undefined', 'const'), ('laplace', 'undefined', 'const'), ('laplace', 'undefined', 'par')] + [k for k in singles]
     else:
         a_keys = [k for k in operands if k[2] != 'zero'] + list(singles)
         x_keys = list(a_keys)
     a_keys = [k for k in a_keys if k in operands or k in singles]
     x_keys = [k for k in x_keys if k in operands or k in singles]
+    if replay_input is not None:
+        # re-run exactly the recorded case (operators) or the recorded section (transform / circuit)
+        op = replay_input.get('op')
+        a_keys, x_keys = [], []
+        if op in ('*', '/'):
+            run_muldiv(tuple(replay_input['a']), tuple(replay_input['x']), (op,))
     t0 = time.time()
     for ak in a_keys:
         for xk in x_keys:
@@ -409,12 +432,17 @@ def run(chk, replay=None):
         if sorted([ad[0], xd[0]]) in OMEGA_PAIRS and not refused:
             return {'kind': kind, 'family': 'omega-domain-pairs-accepted'}
         return {'kind': kind, 'family': 'other', 'refused': refused, 'a_quantity': ad[1], 'x_quantity': xd[1],
-                'domains': sorted([ad[0], xd[0]])}
+                'same_domain': ad[0] == xd[0]}
 
     add_a = [(d, q, 'var' if d in VARS else 'const') for d in domains for q in QORDER]
     add_a = [k for k in add_a if k in operands]
     t0 = time.time()
-    if quick:
+    if replay_input is not None:
+        if replay_input.get('op') in ('+', '-', '=='):
+            run_add(tuple(replay_input['a']), tuple(replay_input['x']),
+                    (replay_input['loose_units'], replay_input['check_units'], replay_input['canonical_units']),
+                    (replay_input['op'],))
+    elif quick:
         for ak in add_a:
             for xk in add_a:
                 run_add(ak, xk, CONFIGS[0], ('+', '=='))
@@ -430,19 +458,23 @@ def run(chk, replay=None):
                 for xk in add_a:
                     run_add(ak, xk, cfg, ('+', '-', '=='))
         # zero / constant value kinds and singletons: complete at the default and the strictest setting, sampled elsewhere
+        special = [k for k in allk if len(k) == 2 or k[2] in ('zero', 'const', 'par')]
         for cfg in (CONFIGS[0], (False, True, False)):
-            for ak in allk:
-                for xk in allk:
-                    if ak[2] in ('zero', 'const') or xk[2] in ('zero', 'const') or ak[0] == 'sym' or xk[0] == 'sym':
-                        run_add(ak, xk, cfg, ('+', '=='))
+            for sk in special:
+                for bk in add_a:
+                    run_add(sk, bk, cfg, ('+', '=='))
+                    run_add(bk, sk, cfg, ('+', '=='))
         for i in range(40000):
             ak, xk = rng.choice(allk), rng.choice(allk)
             run_add(ak, xk, CONFIGS[rng.randrange(8)], ('+', '-', '=='))
     chk.coverage['timing_add_s'] = round(time.time() - t0, 1)
 
     # ---- 3c. **
-    for key, (a, ad) in list(operands.items()) + list(singles.items()):
-        if key[2] == 'zero' if len(key) == 3 else False:
+    pow_items = list(operands.items()) + list(singles.items())
+    if replay_input is not None:
+        pow_items = [(k, v) for k, v in pow_items if replay_input.get('op') == '**' and list(k) == replay_input.get('a')]
+    for key, (a, ad) in pow_items:
+        if len(key) == 3 and key[2] == 'zero':
             continue
         for n in (2, -1, 3):
             chk.count('operator', '**')
@@ -470,7 +502,7 @@ def run(chk, replay=None):
                     elif n == -1 and ad[0] == 'time' and ad[1] in ('impedance', 'admittance'):
                         keyd = {'kind': 'power', 'family': 'reciprocal-of-time-domain-immittance'}
                     else:
-                        keyd = {'kind': 'power', 'family': 'other', 'n': n, 'a_quantity': ad[1], 'a_domain': ad[0]}
+                        keyd = {'kind': 'power', 'family': 'other', 'n': n, 'a_quantity': ad[1]}
                     violation(keyd, inp, {'quantity': real[2], 'units': ustr(real[3]), 'domain': real[1]},
                               'powOk: dim(units r) = n * dim(units a), dimQ(quantity r) = n * dimQ a',
                               '%s ** %d has quantity %s and units %s' % (ad[1], n, real[2], ustr(real[3])))
@@ -480,6 +512,9 @@ def run(chk, replay=None):
     for row in info['tables']['transforms']:
         src, method, dst = row['src'], row['method'], row['dst']
         if src not in TRANSFORM_VALUES:
+            continue
+        if replay_input is not None and not (replay_input.get('op') == 'transform' and replay_input.get('source') == src
+                                             and replay_input.get('method') == method):
             continue
         for q in QORDER:
             try:
@@ -542,7 +577,8 @@ def run(chk, replay=None):
         k: {'quantities': len(v), 'first': v[:2]} for k, v in diag_subst.items()}
 
     # ---- 3e. circuit-analysis outputs carry the right quantity and units
-    circuit_outputs(chk, R, ask, violation)
+    if replay_input is None or 'netlist' in replay_input:
+        circuit_outputs(chk, R, ask, violation)
 
     # ---- class-default vs operator-units diagnostics (not violations by themselves)
     diag = []
@@ -636,10 +672,8 @@ def circuit_outputs(chk, R, ask, violation):
                     d = getattr(o, 'domain', None)
                     if ask('q.labelok %s %s' % (o.quantity, ','.join(map(str, uv)))) != 'true':
                         bad = 'units %s do not have the dimension of a %s' % (o.units, want)
-                    elif d in WIRE and d != 'superposition' and ','.join(map(str, uv)) != ask('q.defunits %s %s' % (wire_domain(d), o.quantity)):
-                        # same SI dimension as the class default is enough (V*s vs V/Hz)
-                        if ask('q.dim %s' % ','.join(map(str, uv))) != ask('q.dim %s' % ask('q.defunits %s %s' % (wire_domain(d), o.quantity))):
-                            bad = 'units %s differ in dimension from the %s-domain %s default' % (o.units, d, want)
+                    elif d in WIRE and d != 'superposition' and ask('q.freshok %s %s %s' % (wire_domain(d), o.quantity, ','.join(map(str, uv)))) != 'true':
+                        bad = 'units %s do not have the dimension expected of a %s in the %s domain' % (o.units, want, d)
                 if bad:
                     violation({'kind': 'circuit-output', 'output': kind, 'domain': getattr(o, 'domain', None)},
                               {'netlist': net, 'query': label}, {'class': type(o).__name__, 'units': str(getattr(o, 'units', None))},
